@@ -5,12 +5,12 @@ go 1.25.0
 require (
 	github.com/mutagen-io/mutagen v0.0.0
 	golang.org/x/text v0.36.0
+	google.golang.org/protobuf v1.36.11
 )
 
 require (
 	github.com/bmatcuk/doublestar/v4 v4.10.0 // indirect
 	golang.org/x/sys v0.43.0 // indirect
-	google.golang.org/protobuf v1.36.11 // indirect
 )
 
 replace github.com/mutagen-io/mutagen => /repo
